@@ -339,7 +339,7 @@ func genURL(r *RNG, s *SchemaSpec) *URLSpec {
 			}
 			u.Params = append(u.Params, QP{"include", strings.Join(shuffleStrings(r, paths), ",")})
 		case 7:
-			u.Params = append(u.Params, QP{"page[" + r.Pick([]string{"size", "number", "size", "number", "cursor", "a b", "x]y", ""}) + "]", r.Pick([]string{"0", "1", "10", "007", "-3", "abc", "a b", "a&b", "9223372036854775808", "1e3", "", "%", " ", "  ", "\t", " 1", "1 ", "+"})})
+			u.Params = append(u.Params, QP{"page[" + r.Pick([]string{"size", "number", "size", "number", "cursor", "a b", "x]y", "", "after", "before", "offset", "limit", "after"}) + "]", r.Pick([]string{"0", "1", "10", "007", "-3", "abc", "a b", "a&b", "9223372036854775808", "1e3", "", "%", " ", "  ", "\t", " 1", "1 ", "+", "1700000000", "0042", "abc=="})})
 		case 8, 9:
 			switch r.Intn(6) {
 			case 0:
@@ -351,7 +351,7 @@ func genURL(r *RNG, s *SchemaSpec) *URLSpec {
 					`\u005bdraft]`, `\u005b]`, `\u005b{}]`, `\u0022q`, `\u0074rue`, `\u006eull`, `\u0031`, `\u002d1`, `\u0020lead`, "true", "null", "12", "-1", "\xff", "a\xc3", "\xed\xa0\x80z", "ok\xfe\xff"})})
 			case 3:
 				u.Params = append(u.Params, QP{"filter", r.Pick([]string{`{invalid}`, `{"f":1}`, `{"o":"and","v":5}`, `{"o":"or","v":[1]}`, `{}`, `{"f":"a","o":"=","v":"x"} trailing`,
-					`{"o":"and"}`, `{"o":"or"}`, `{"o":"and","v":null}`, `{"o":"and","v":[{"o":"or"}]}`, `{"o":"or","v":[{"o":"and","v":[]},{"o":"or"}]}`, `{"f":"a","o":"="}`, `{"o":"in","f":"a"}`, `{"o":"and","v":""}`, `{"v":[]}`})})
+					`{"o":"or","v":[null]}`, `{"o":"and","v":[{"o":"or","v":[null]},null]}`, `{"o":"and"}`, `{"o":"or"}`, `{"o":"and","v":null}`, `{"o":"and","v":[{"o":"or"}]}`, `{"o":"or","v":[{"o":"and","v":[]},{"o":"or"}]}`, `{"f":"a","o":"="}`, `{"o":"in","f":"a"}`, `{"o":"and","v":""}`, `{"v":[]}`})})
 			default:
 				b, _ := json.Marshal(genFilterSpec(r, rt, 3))
 				u.Params = append(u.Params, QP{"filter", string(b)})
